@@ -6,8 +6,8 @@
    ones it was written from (coq/obligations/Obl_C08.v).  That validation of the client's document
    returns, and that a valid document never makes a step fail to build, is decided on every
    generated case by the correspondence run (watchdog, goroutine census, oracle c08_holds). *)
-From Coq Require Import List Arith Bool.
-From GW Require Import Base.Res Gw.PlanLTS Proofs.PlanLTSProofs.
+From Coq Require Import String List Arith Bool.
+From GW Require Import Base.Res Gql.Syntax Gw.Locate Gw.Plan Gw.PlanLTS Proofs.PlanLTSProofs Proofs.PlanTotal.
 Import ListNotations.
 
 (* For every step tree -- any number of cross-service branch points inside one step, any depth --
@@ -33,6 +33,39 @@ Theorem C08_every_operation_is_planned : forall ops fuel,
   Forall (fun o => psize o < fuel) ops -> is_panic (plan_all fuel ops) = false.
 Proof. exact plan_all_total. Qed.
 Print Assumptions C08_every_operation_is_planned.
+
+(* The planner itself (Gw/Plan.v: groupSelectionSet, extractSelection and the queue of steps, as
+   functions; documents without named fragment spreads) terminates on every document, routing
+   table and priority list: its recursion is bounded by the nesting depth of the document.  The
+   model counts down a fuel; this theorem says that fuel is never what stops it -- with two more
+   than the document is deep, whatever it returns (a plan, or one of the errors the planner
+   reports) is returned for another reason.  The argument is the one the code relies on without
+   saying so: the chooser is idempotent (C20), so the selection a step is given is settled at the
+   step's own location, and a settled step only queues steps cut from strictly deeper in the
+   document; extractSelection descends one level of nesting per call. *)
+Theorem C08_the_planner_terminates : forall prios urls ft fuel root sels,
+  ldepth sels + 1 < fuel -> fuel_err (plan_operation prios urls ft fuel root sels) = false.
+Proof. exact plan_operation_total. Qed.
+Print Assumptions C08_the_planner_terminates.
+
+Theorem C08_extraction_descends_one_level_per_call : forall prios urls ft fuel ptype ploc ip w sels,
+  ldepth sels < fuel -> fuel_err (extract prios urls ft fuel ptype ploc ip w sels) = false.
+Proof. exact extract_total. Qed.
+Print Assumptions C08_extraction_descends_one_level_per_call.
+
+(* non-vacuity: a document five levels deep across three services, planned with exactly depth + 2 *)
+Example C08_planner_example :
+  let urls : urlmap := [("Query.user", ["A"]); ("User.id", ["A"; "B"; "C"]); ("User.name", ["A"]); ("User.friends", ["B"]);
+                        ("User.photo", ["C"]); ("Photo.url", ["C"]); ("Photo.owner", ["C"])] in
+  let ft : ftypes := [("Query.user", "User"); ("User.friends", "User"); ("User.photo", "Photo"); ("Photo.owner", "User")] in
+  let f n sub := Field n n [] [] sub in
+  let doc := [f "user" [f "name" []; f "friends" [Inline "User" [] [f "name" []; f "photo" [f "url" []; f "owner" [f "name" []]]]]]] in
+  ldepth doc = 6 /\
+  match plan_operation [] urls ft (ldepth doc + 2) "Query" doc with
+  | Ok (PStep _ _ _ _ [PStep "A" _ _ _ [PStep "B" _ _ _ thens]]) => List.length thens = 2
+  | _ => False
+  end.
+Proof. vm_compute. split; reflexivity. Qed.
 
 (* non-vacuity: 300 branch points in one step (the pinned tree's queue held 50) *)
 Example C08_three_hundred_branch_points :
